@@ -1,7 +1,7 @@
 (* C07/Proofs.v -- the functional-tree theorem: for every well-formed tree of the model,
    fprox returns THE proximal point of fval (all trees, all sizes, all admissible steps). *)
 From Coq Require Import ZArith QArith Reals Lra Lia List Bool Psatz.
-From Verif Require Import Base.Num Base.Vec Base.VecR C07.Model C07.Convex C07.Leaves C07.LeafThms C07.Rules.
+From Verif Require Import Base.Num Base.Vec Base.VecR C07.Model C07.Convex C07.Leaves C07.LeafThms C07.Rules C07.L2.
 Import ListNotations.
 Local Open Scope R_scope.
 
@@ -12,7 +12,7 @@ Notation leafR := (@leaf R).
 (* ---- which leaves are covered by the tree theorem, and which steps they accept ---- *)
 Definition leaf_ok (k : leafR) (n : nat) : Prop :=
   match k with
-  | FL1 | FL2Sq | FConst _ | FIndZero _ | FBallInf => True
+  | FL1 | FL2 | FL2Sq | FConst _ | FIndZero _ | FBallInf | FBall2 => True
   | FBox lo hi => bound_ok n lo /\ bound_ok n hi
   | FHuber gamma => 0 <= gamma
   | _ => False
@@ -174,6 +174,9 @@ Proof.
   destruct k; cbn [leaf_ok] in Hk; try contradiction; unfold leaf_prox; rewrite ?Hx.
   - (* L1 *) destruct s as [sg|v|a b]; [| |contradiction]; eexists; (split; [reflexivity|]);
       apply l1_leaf_prox; auto.
+  - (* L2 *)
+    destruct s as [sg|v|a b]; cbn [leaf_sig_ok leaf_vec_ok] in Hs; [|tauto|contradiction].
+    cbn [needs_scalar]. eexists; split; [reflexivity|]. apply l2_leaf_prox; auto.
   - (* L2^2 *) destruct s as [sg|v|a b]; [| |contradiction]; eexists; (split; [reflexivity|]);
       apply l2sq_leaf_prox; auto.
   - (* constant *) eexists; split; [reflexivity|].
@@ -183,6 +186,9 @@ Proof.
   - (* unit ball of the max norm *)
     destruct s as [sg|v|a b]; cbn [leaf_sig_ok leaf_vec_ok] in Hs; [|tauto|contradiction].
     cbn [needs_scalar]. eexists; split; [reflexivity|]. apply ballinf_leaf_prox; auto.
+  - (* unit ball of the space norm, through the Moreau rule *)
+    destruct s as [sg|v|a b]; cbn [leaf_sig_ok leaf_vec_ok] in Hs; [|tauto|contradiction].
+    apply (ball2_leaf_prox n); auto.
   - (* Huber *)
     destruct s as [sg|v|a b]; cbn [leaf_sig_ok leaf_vec_ok] in Hs; [|tauto|contradiction].
     cbn [needs_scalar]. eexists; split; [reflexivity|]. apply huber_leaf_prox; auto.
